@@ -99,6 +99,16 @@ def flatten(t: T, ops: Tuple[str, ...], bool_op: str) -> List[T]:
             for x in inner.args[0]:
                 out += flatten(x, ops, bool_op)
             return out
+    # functools.reduce(jnp.logical_or, (a, b, c)) / reduce(operator.or_, [a, b, c])
+    if n == "functools.reduce" and len(t.args[1]) == 2 and t.args[1][1].kind in ("tuple", "list") and t.args[1][0].kind == "ext":
+        fn_ = t.args[1][0].args[0]
+        want = {"or": ("jax.numpy.logical_or", "numpy.logical_or", "operator.or_", "jax.numpy.bitwise_or"),
+                "and": ("jax.numpy.logical_and", "numpy.logical_and", "operator.and_", "jax.numpy.bitwise_and")}[bool_op]
+        if fn_ in want and not any(x.kind == "star" for x in t.args[1][1].args[0]):
+            out = []
+            for x in t.args[1][1].args[0]:
+                out += flatten(x, ops, bool_op)
+            return out
     # jnp.any over a single scalar disjunct (MultiCVRP: jnp.any(step_count > horizon))
     return [t]
 
